@@ -189,6 +189,53 @@ def oracle_files(ck, rng):
                 for fl in fails:
                     ck.violation(what=f"{fmt} round trip: {fl}", inp={"format": fmt, "n": n, "angle_class": ["generic", "near-pi", "near-0", "mid"][kind], "precision": prec},
                                  key={"site": "roundtrip", "format": fmt, "symptom": fl.split(" ")[0]}, oracle="file_roundtrip", measured=fl)
+        # ---- zero molecules with feature columns: columns and schema survive every format ----
+        empty_feats = pl.DataFrame({"i": pl.Series("i", [], dtype=pl.Int64), "f": pl.Series("f", [], dtype=pl.Float64), "s": pl.Series("s", [], dtype=pl.Utf8)})
+        full = Molecules(np.arange(6, dtype=float).reshape(2, 3), features={"i": [1, 2], "f": [0.5, 1.5], "s": ["a", "b"]})
+        for how, m0 in (("constructed", Molecules(np.zeros((0, 3)), features=empty_feats)), ("head(0)", full.head(0)), ("filter-none", full.filter(pl.col("i") > 99))):
+            for fmt in ("df", "parquet", "csv"):
+                ck.oracle_count("empty_with_features", 1, 1)
+                try:
+                    cols = m0.to_dataframe().columns
+                    if fmt == "df":
+                        back = Molecules.from_dataframe(m0.to_dataframe())
+                    elif fmt == "parquet":
+                        f = os.path.join(d, "e.parquet"); m0.to_file(f); back = Molecules.from_file(f)
+                    else:
+                        f = os.path.join(d, "e.csv"); m0.to_file(f); back = Molecules.from_file(f)
+                    fl = None
+                    if cols != ["z", "y", "x", "zvec", "yvec", "xvec", "i", "f", "s"]: fl = f"data frame columns {cols}"
+                    elif len(back) != 0: fl = f"{len(back)} molecules read back"
+                    elif back.features.columns != ["i", "f", "s"]: fl = f"feature columns read back: {back.features.columns}"
+                except Exception as e:  # noqa
+                    fl = f"raised {type(e).__name__}: {e}"
+                if fl:
+                    ck.violation(what=f"zero molecules with features ({how}), {fmt}: {fl}", inp={"how": how, "format": fmt},
+                                 key={"site": "roundtrip-empty", "format": fmt, "how": how}, oracle="empty_with_features", measured=fl)
+        # ---- to_file / from_file choose the format from the (last) suffix, whatever else the name contains ----
+        for name in ("plain.parquet", "plain.pq", "plain.csv", "run_1.5nm.parquet", "mole.v2.pq", "a.b.csv", "x.parquet.csv", "y.csv.pq", "noext", "set.1.txt"):
+            ck.oracle_count("suffix_decides_format", 1, 1)
+            from pathlib import Path
+            want_pq = Path(name).suffix in (".pq", ".parquet")
+            f = os.path.join(d, name)
+            fl = None
+            try:
+                full.to_file(f)
+                with open(f, "rb") as fh:
+                    is_pq = fh.read(4) == b"PAR1"
+                if is_pq != want_pq:
+                    fl = f"to_file wrote {'parquet' if is_pq else 'csv'}"
+                else:
+                    # a file of the right format written by the explicit writer must be readable through from_file
+                    (full.to_parquet if want_pq else full.to_csv)(f)
+                    back = Molecules.from_file(f)
+                    if len(back) != 2 or back.features.columns != ["i", "f", "s"] or np.abs(back.pos - full.pos).max() > 1e-3:
+                        fl = "from_file read something else"
+            except Exception as e:  # noqa
+                fl = f"raised {type(e).__name__}: {e}"
+            if fl:
+                ck.violation(what=f"file name {name!r} (suffix {Path(name).suffix!r}): {fl}", inp={"name": name},
+                             key={"site": "suffix", "dotted_stem": name.count(".") > 1, "parquet": want_pq}, oracle="suffix_decides_format", measured=fl)
     finally:
         shutil.rmtree(d, ignore_errors=True)
 
